@@ -69,10 +69,10 @@ type sockPlan struct {
 	kind  string
 	steps []SkStep
 	// expectations
-	reads  []string // canonical prefix "id,serial,sum,no,complete,body,terminaldata," of every OnReadExecutionEvent
-	rr     []expRR  // the re-requests, in order of time
-	nreply int      // number of 0x8001 replies expected (one per read event with a reply)
-	bySerial bool   // the re-requests come from ONE read (map order): compare as a set keyed by the first serial
+	reads    []string // canonical prefix "id,serial,sum,no,complete,body,terminaldata," of every OnReadExecutionEvent
+	rr       []expRR  // the re-requests, in order of time
+	nreply   int      // number of 0x8001 replies expected (one per read event with a reply)
+	bySerial bool     // the re-requests come from ONE read (map order): compare as a set keyed by the first serial
 }
 
 func canonPlain(f FrameSpec) string {
